@@ -29,7 +29,8 @@ PROPERTY = "C03"
 LEVEL = "exploration"
 RULE = ("case = dictionary (variables and records over all 19 numeric types, BOOLEAN, REAL32/64, VISIBLE/"
         "UNICODE/OCTET strings, DOMAIN) + per client thread a node id and a list of (entry, access path in "
-        "{index, name, 'Record.Member', [index][sub], [index][member name]}, typed value) + delivery mode "
+        "{index, name, 'Record.Member', [index][sub], [index][member name], get_variable(index|name, sub), "
+        "Mapping protocol items()/get() of the record}, typed value) + delivery mode "
         "(inline | baton-scheduled threads with a drawn frame-level order | dispatcher thread with drawn "
         "delays and unrelated traffic | python-can virtual bus). Values: all type boundaries, +-2^k+-1, "
         "random; all 8/16-bit values in the thorough tier; floats incl. inf, -0.0, subnormals; strings of "
